@@ -109,7 +109,7 @@ impl Prop for P {
         // the crate's own decoder with a ring of exactly the declared size
         let mut d = DecompressorOxide::new();
         let sched = DecSched { chunks: vec![], budgets: vec![] };
-        let rr = drive(&mut d, out, &DriveOpts { flags: TINFL_FLAG_PARSE_ZLIB_HEADER, mode: BufMode::Ring { bits: cinfo + 8, start: 0, fill_seed: 7 }, sched: &sched, canary: false, max_calls: None, announce: true, flat_start: 0 }, plain_hook)?;
+        let rr = drive(&mut d, out, &DriveOpts { flags: TINFL_FLAG_PARSE_ZLIB_HEADER, mode: BufMode::Ring { bits: cinfo + 8, start: 0, fill_seed: 7 }, sched: &sched, canary: false, max_calls: None, announce: true, flat_start: 0, probe_full_ring: false }, plain_hook)?;
         vensure!(rr.status == TINFLStatus::Done && rr.out == x, sigd.clone(), "decoding with a ring of exactly the declared {} bytes: status {} ({} of {} bytes right)", declared, status_name(rr.status), rr.out.iter().zip(x.iter()).take_while(|(a, b)| a == b).count(), x.len());
         // system zlib trusting the header
         if let Some(z) = zlibffi::z_inflate(out, 0, 37, x.len() + 1024) {
